@@ -10,7 +10,10 @@ sys.path.insert(0, '/verif'); sys.path.insert(1, '/repo')
 sys.setrecursionlimit(20000)
 mod = importlib.import_module('harness.c17_annotate')
 if hasattr(mod, 'warmup'):
-    mod.warmup()
+    try:
+        mod.warmup()
+    except Exception:
+        pass
 mod.PART = {'mols': [1, 2], 'natoms': 2, 'interleave': False}
 ENGINE = 'ch'
 try:
